@@ -270,19 +270,25 @@ def parse_rvalue(s):
         return ("closure", name, caps)
     # tuple-like aggregate  Path(args)   (enum variant / tuple struct ctor)
     if s.endswith(")"):
-        # find the '(' matching the last ')'
-        depth = 0
-        for i in range(len(s) - 1, -1, -1):
+        # the '(' that matches the last ')': scan forwards so that char / string literals among the arguments
+        # (e.g.  Option::<char>::Some(const ')')  ) are skipped by find_matching
+        i = 0
+        while i < len(s):
             c = s[i]
-            if c == ")": depth += 1
-            elif c == "(":
-                depth -= 1
-                if depth == 0:
+            if c in "<[{" or c == "(":
+                try:
+                    e = find_matching(s, i)
+                except ValueError:
+                    break
+                if c == "(" and e == len(s) - 1 and i > 0:
                     path = s[:i].strip()
                     if path and re.match(r"^[A-Za-z_<&\[(]", path):
                         args = [x for x in split_top(s[i + 1:-1]) if x != ""]
                         return ("ctor", path, [parse_operand(a) for a in args])
                     break
+                i = e + 1
+                continue
+            i += 1
     # unit-like aggregate  Path::Variant   or   Path
     if re.match(r"^[A-Za-z_<]", s):
         return ("ctor", s, [])
